@@ -77,6 +77,9 @@ pub enum Step {
     Extra(XOp),
     RestartJson,
     RestartDb,
+    /// only the diagram store goes through JSON (`Bdd` export -> import -> `Bdd::fix_import`),
+    /// the ADF is re-assembled around it with `Adf::from((ordering, bdd, ac))`
+    RestartBddJson,
     /// take only the first k models of the lazy enumeration, then drop the iterator
     CompleteTake(usize),
     StableTake(usize),
@@ -353,6 +356,17 @@ impl Obj {
                 self.restart_db();
                 Answer { sem: "restart".into(), raw: "restart-db".into() }
             }
+            Step::RestartBddJson => {
+                let text = serde_json::to_string(&self.adf.bdd).map_err(|e| format!("export failed: {e}"))?;
+                let mut bdd: Bdd = serde_json::from_str(&text).map_err(|e| format!("import failed: {e}"))?;
+                bdd.fix_import();
+                let names = self.adf.ordering.names().read().unwrap().clone();
+                let mapping = self.adf.ordering.mappings().read().unwrap().clone();
+                let ac = self.adf.ac.clone();
+                let vc = VarContainer::from_parser(Arc::new(RwLock::new(names)), Arc::new(RwLock::new(mapping)));
+                self.adf = Adf::from((vc, bdd, ac));
+                Answer { sem: "restart".into(), raw: "restart-bdd-json".into() }
+            }
             Step::FixImport => {
                 self.adf.fix_import();
                 Answer { sem: "fix_import".into(), raw: "fix_import".into() }
@@ -362,7 +376,7 @@ impl Obj {
 }
 
 fn is_restart(s: &Step) -> bool {
-    matches!(s, Step::RestartJson | Step::RestartDb)
+    matches!(s, Step::RestartJson | Step::RestartDb | Step::RestartBddJson)
 }
 
 enum StepErr {
@@ -493,7 +507,14 @@ impl Scenario for History {
                     extras += 1;
                     Step::Extra(op)
                 }
-                20 | 21 => Step::RestartJson,
+                20 => Step::RestartJson,
+                21 => {
+                    if rng.chance(1, 2) {
+                        Step::RestartJson
+                    } else {
+                        Step::RestartBddJson
+                    }
+                }
                 _ => Step::RestartDb,
             };
             steps.push(s);
@@ -565,7 +586,11 @@ impl Scenario for History {
                 stats.inc("api_calls");
                 if is_restart(step) {
                     restarts_fired += 1;
-                    stats.inc(if matches!(step, Step::RestartJson) { "fault_restart_json_fired" } else { "fault_restart_db_fired" });
+                    stats.inc(match step {
+                        Step::RestartJson => "fault_restart_json_fired",
+                        Step::RestartBddJson => "fault_restart_bdd_json_fired",
+                        _ => "fault_restart_db_fired",
+                    });
                     stats.inc(&format!("restart_at_position_{}", (i * 4 / case.steps.len().max(1)).min(3)));
                     if prop == "C14" {
                         if Some(&main.adf.bdd.nodes) != nodes_before.as_ref() {
@@ -790,7 +815,7 @@ fn answer_kind(step: &Step) -> &'static str {
         Step::VarDeps(_) | Step::PassiveImpact(_) | Step::ActiveImpact(_) => "dependencies",
         Step::Cubes(..) => "cubes",
         Step::Extra(_) => "extra",
-        Step::RestartJson | Step::RestartDb => "restart",
+        Step::RestartJson | Step::RestartDb | Step::RestartBddJson => "restart",
         Step::FixImport => "fix_import",
     }
 }
